@@ -3,6 +3,7 @@
 from __future__ import annotations
 
 import copy
+import math
 import os
 import random as pyrandom
 import tempfile
@@ -55,8 +56,7 @@ def logged_fitness(p):
 
 def logged_fitness_multi(p):
     v = logged_fitness(p)
-    h = evo.stable_hash(evo.text(p))
-    return [v, float((h >> 5) % 7), float((h >> 9) % 3)]
+    return [v] + pure_multi(p)[1:]
 
 
 BUFFER = [0.0, 0.0, 0.0]
@@ -82,7 +82,12 @@ def pure_single(p):
 
 def pure_multi(p):
     h = evo.stable_hash(evo.text(p))
-    return [float(h % 13), float((h >> 5) % 7), float((h >> 9) % 3)]
+    third = float((h >> 9) % 3)
+    if (h >> 11) % 9 == 0:
+        third = float("-inf")  # infinitely good when the objective is minimised, infinitely bad when it is maximised
+    elif (h >> 11) % 9 == 1:
+        third = float("inf")
+    return [float(h % 13), float((h >> 5) % 7), third]
 
 
 def read_log():
@@ -139,7 +144,9 @@ def make_problem(case, single_f, multi_f, user_agg=False):
 def expected(case, mins, p):
     if case["multi"]:
         comps = pure_multi(p)
-        return sum(-c if m else c for c, m in zip(comps, mins)), comps
+        signed = [-c if m else c for c, m in zip(comps, mins)]
+        # "sum of the components with the minimised ones negated"; infinitely bad on one objective is infinitely bad
+        return (float("-inf") if float("-inf") in signed else sum(signed)), comps
     v = pure_single(p)
     return (-v if case["minimize"] else v), [v]
 
@@ -155,7 +162,7 @@ def check_individual(case, mins, ind, prob, rec, wit, where):
     agg, comps = expected(case, mins, ind.get_phenotype())
     if [float(x) for x in f.fitness_components] != comps:
         rec.violation(f"recorded-fitness-differs-from-fitness-function:{where}", dict(wit, recorded=list(f.fitness_components), recomputed=comps))
-    elif abs(f.maximizing_aggregate - agg) > 1e-9:
+    elif f.maximizing_aggregate != agg and not (math.isfinite(agg) and math.isfinite(f.maximizing_aggregate) and abs(f.maximizing_aggregate - agg) <= 1e-9):
         rec.violation(f"aggregate-wrong:{'multi' if case['multi'] else 'single'}:{where}", dict(wit, recorded=f.maximizing_aggregate, expected=agg, components=comps, minimize=mins if case["multi"] else case["minimize"]))
 
 
